@@ -50,12 +50,6 @@ allowed to be set when either 'min_encryption_version' or
 
 func (b *backend) pathTrimUpdate() framework.OperationFunc {
 	return func(ctx context.Context, req *logical.Request, d *framework.FieldData) (resp *logical.Response, retErr error) {
-		txRollback, err := logical.StartTxStorage(ctx, req)
-		if err != nil {
-			return nil, err
-		}
-		defer txRollback()
-
 		name := d.Get("name").(string)
 
 		p, _, err := b.GetPolicyExclusive(ctx, keysutil.PolicyRequest{
@@ -69,6 +63,16 @@ func (b *backend) pathTrimUpdate() framework.OperationFunc {
 			return logical.ErrorResponse("invalid key name"), logical.ErrInvalidRequest
 		}
 		defer p.Unlock()
+
+		// The storage transaction starts only now, under the lock of the key: a
+		// transaction begun before the lock was granted could predate the commit
+		// of the request that held it, and would then fail at commit after the
+		// cached key had already been changed in memory.
+		txRollback, err := logical.StartTxStorage(ctx, req)
+		if err != nil {
+			return nil, err
+		}
+		defer txRollback()
 
 		minAvailableVersionRaw, ok, err := d.GetOkErr("min_available_version")
 		if err != nil {
